@@ -250,3 +250,34 @@ Proof.
 Qed.
 
 End Skip.
+
+(* ---- `==` as a proposition: the boolean reference unfolded (used by C03_eq_true_iff) ---- *)
+Lemma forallb2_Forall2 {A} (f : A -> A -> bool) : forall xs ys, length xs = length ys ->
+  (forallb2 f xs ys = true <-> Forall2 (fun x y => f x y = true) xs ys).
+Proof.
+  induction xs as [|x xs IH]; intros [|y ys] L; cbn [forallb2]; try discriminate L.
+  - split; intros _; [constructor|reflexivity].
+  - injection L as L. rewrite andb_true_iff, (IH ys L). split.
+    + intros [H1 H2]. constructor; assumption.
+    + intros H. inversion H; subst. split; assumption.
+Qed.
+
+Theorem spec_eq_true_iff :
+  forall (fval : Type) (feq : fval -> fval -> bool) (it : item) (a b : value fval),
+    wf_value it a -> wf_value it b ->
+    (spec_eq feq it a b = true <->
+       exists d, variant_of it a = Some d /\ variant_of it b = Some d /\ v_idx a = v_idx b /\
+         item_inc_flag it = false /\ d_incomparable d = false /\
+         Forall2 (fun x y => feq x y = true) (project d PartialEq a) (project d PartialEq b)).
+Proof.
+  intros fval feq it a b [da [Ha La]] [db [Hb Lb]]. unfold spec_eq, incomparable_value, variant_of. rewrite Ha.
+  rewrite !andb_true_iff, negb_true_iff, orb_false_iff, Nat.eqb_eq. split.
+  - intros [[E [I1 I2]] F].
+    assert (D : db = da) by (rewrite E in Ha; congruence). subst db.
+    exists da. split; [reflexivity|]. split; [exact Hb|]. split; [exact E|]. split; [exact I1|]. split; [exact I2|].
+    apply forallb2_Forall2; [apply project_length; assumption | exact F].
+  - intros [d [Hd [Hd' [E [I1 [I2 F]]]]]]. assert (D : d = da) by congruence. subst d.
+    assert (D : db = da) by congruence. subst db.
+    split; [split; [exact E | split; [exact I1 | exact I2]]|].
+    apply forallb2_Forall2; [apply project_length; assumption | exact F].
+Qed.
